@@ -183,6 +183,17 @@ def cases(tier, rng):
                 yield "reused-object", mk(h, r, None, size, 3) + [[[False, ["bytes=1-3"], [pifr]]]]
                 yield "reused-object", mk(h, r, "garbage", size, 3) + [[[False, ["bytes=1-3"], [pifr]], [True, []]]]
 
+    # (g) the same ASGI response object answers another request in a concurrent task (two clients of one mounted
+    # FileResponse; seed C02-13): every ordered pair of request kinds; the model knows nothing of the other request
+    for size in (6, 8):
+        for oh, orr in kinds:
+            for h, r in kinds:
+                yield "overlapping-requests", mk(h, r, None, size, 3) + [[], [oh, [orr] if orr else []]]
+        for _ in range(30 if tier == "quick" else 300):
+            h, r = rng.choice(kinds)
+            oh, orr = rng.choice(kinds)
+            yield "overlapping-requests", mk(h, r, None, size, rng.choice([1, 3, 64])) + [[], [oh, [orr] if orr else []]]
+
 
 def search_cases(tier, rng, mism):
     yield from cases("thorough", rng)
@@ -219,12 +230,30 @@ def prelude(case):
     return [(bool(p[0]), list(p[1]), list(p[2]) if len(p) > 2 else []) for p in (case[12] if len(case) > 12 else [])]
 
 
+def _earlier_version(base, case, path, st, iface):
+    """History in the process (seed C02-12): the file had an earlier version, rewritten in place within the same second —
+    a stat result that equals the current one in every integer field (os.stat_result compares and hashes by those) and
+    differs in the sub-second part of st_mtime only.  That version was served once, by another response object.  What
+    is answered now must not depend on it: the entity tag is a function of the CURRENT st_mtime and size."""
+    seq, d = st.__reduce__()[1]
+    d = dict(d)
+    d["st_mtime"] = d["st_mtime"] - 0.25
+    d["st_mtime_ns"] = d["st_mtime_ns"] - 250000000
+    old = os.stat_result(seq, d)
+    resp = _cls(base, case)(path, content_type=case[8], chunk_size=case[5], stat_result=old)
+    if iface == "wsgi":
+        util.call_wsgi(resp, util.wsgi_environ("GET"))
+    else:
+        util.call_asgi(resp, util.http_scope("GET"))
+
+
 def run_wsgi(case, head):
     import baize.wsgi.responses as W
     W.random_choices = lambda pop, k: list(BOUNDARY[:k])
     _, _, rng, ifr, data, cs, etag, lm, ctype, disp, boundary, name = case[:12]
     path = file_for(data)
     st = os.stat(path)
+    _earlier_version(W.FileResponse, case, path, st, "wsgi")
     resp = _cls(W.FileResponse, case)(path, content_type=ctype, download_name=name or None, chunk_size=cs, stat_result=st if (len(data) + cs) % 2 else None)   # None: the constructor stats the file itself
     for phead, prng, pifr in prelude(case):
         # a FileResponse object may serve as an application: it has answered other requests before this one
@@ -254,6 +283,7 @@ def run_asgi(case, head, zc):
     _, _, rng, ifr, data, cs, etag, lm, ctype, disp, boundary, name = case[:12]
     path = file_for(data)
     st = os.stat(path)
+    _earlier_version(A.FileResponse, case, path, st, "asgi")
     resp = _cls(A.FileResponse, case)(path, content_type=ctype, download_name=name or None, chunk_size=cs, stat_result=st if (len(data) + cs) % 2 else None)   # None: the constructor stats the file itself
     for pi, (phead, prng, pifr) in enumerate(prelude(case)):
         phs = [(b"range", prng[0].encode("latin-1"))] if prng else []
@@ -270,7 +300,14 @@ def run_asgi(case, head, zc):
     if ifr:
         hs.append((b"if-range", ifr[0].encode("latin-1")))
     scope = util.http_scope("HEAD" if head else "GET", headers=hs, extensions={"http.response.zerocopysend": {}} if zc else None)
-    sent, exc = util.call_asgi(resp, scope)
+    other = None
+    if len(case) > 13 and case[13]:
+        # seed C02-13: the same object answers another request in a concurrent task (two clients of one mounted
+        # FileResponse); each request's status, headers and body are its own
+        ohead, orng = case[13][0], case[13][1]
+        other = util.http_scope("HEAD" if ohead else "GET", headers=[(b"range", orng[0].encode("latin-1"))] if orng else [],
+                                extensions={"http.response.zerocopysend": {}} if not zc else None)
+    sent, exc = util.call_asgi(resp, scope, alongside=other)
     if exc is not None:
         return ["exc", type(exc).__name__]
     if not sent or sent[0]["type"] != "http.response.start":
@@ -286,7 +323,7 @@ def run_asgi(case, head, zc):
 
 def ENCODE(case):
     # the model is stateful (C02/Reuse.v): what the same response object answered before goes with the case
-    if len(case) <= 12:
+    if len(case) <= 12:      # (case[13], a request answered concurrently, is not the model's business)
         return core.enc_line(case[:12])
     return core.enc_line(list(case[:12]) + [[[1 if h else 0, r] + ([i] if i else []) for h, r, i in prelude(case)]])
 
